@@ -295,6 +295,59 @@ class _Normalise(ast.NodeTransformer):
         return node
 
 
+def _inline_attribute_aliases(tree):
+    """`eq = self.meshParent.equilibrium; ... eq.psi(...)`  ->  `... self.meshParent.equilibrium.psi(...)`.
+    A local that is assigned exactly once, from a pure attribute chain rooted at a name that the
+    function never rebinds (typically `self`), and is only read afterwards, is a pure alias;
+    reading through it does not change behaviour provided nothing rebinds an attribute of the
+    chain in between (not checked: the analysis would then read a newer object than the code,
+    which no rule here depends on).  The defining statement is kept."""
+    for f in ast.walk(tree):
+        if not isinstance(f, (ast.FunctionDef, ast.AsyncFunctionDef)):
+            continue
+        counts, defs = {}, {}
+        params = {a.arg for a in f.args.posonlyargs + f.args.args + f.args.kwonlyargs}
+        stores = {}
+        for n in ast.walk(f):
+            if isinstance(n, ast.Name) and isinstance(n.ctx, (ast.Store, ast.Del)):
+                stores[n.id] = stores.get(n.id, 0) + 1
+            elif isinstance(n, ast.ExceptHandler) and n.name:
+                stores[n.name] = stores.get(n.name, 0) + 2
+            elif isinstance(n, (ast.Global, ast.Nonlocal)):
+                for x in n.names:
+                    stores[x] = stores.get(x, 0) + 2
+        for n in walk_own(f):
+            if isinstance(n, ast.Assign) and len(n.targets) == 1 and isinstance(n.targets[0], ast.Name):
+                v = n.value
+                chain = v
+                while isinstance(chain, ast.Attribute):
+                    chain = chain.value
+                if isinstance(v, ast.Attribute) and isinstance(chain, ast.Name) and (chain.id == "self" or (chain.id in params and not stores.get(chain.id))):
+                    defs[n.targets[0].id] = v
+        single = {k: v for k, v in defs.items() if stores.get(k) == 1 and k not in params}
+        if not single:
+            continue
+        import copy
+
+        class Sub(ast.NodeTransformer):
+            def visit_Name(self, node):
+                if isinstance(node.ctx, ast.Load) and node.id in single:
+                    return ast.copy_location(copy.deepcopy(single[node.id]), node)
+                return node
+
+            def visit_FunctionDef(self, node):
+                # nested functions that rebind the name themselves are left alone
+                own = {a.arg for a in node.args.posonlyargs + node.args.args + node.args.kwonlyargs}
+                if own & set(single):
+                    return node
+                return self.generic_visit(node)
+
+            visit_Lambda = visit_FunctionDef
+
+        f.body = [Sub().visit(st) for st in f.body]
+    return tree
+
+
 def normalise_tree(tree):
     aliases = {}
     for n in ast.walk(tree):
@@ -304,7 +357,11 @@ def normalise_tree(tree):
                     aliases[a.asname] = a.name
     # the alias is only rewritten when nothing else in the module is called by the full name's
     # first component in a conflicting way (a plain `import numpy` next to it is fine)
-    return ast.fix_missing_locations(_Normalise(aliases).visit(tree))
+    tree = _Normalise(aliases).visit(tree)
+    if not os.environ.get("HV_NO_ALIAS_INLINE"):
+        for _ in range(3):  # aliases of aliases
+            tree = _inline_attribute_aliases(tree)
+    return ast.fix_missing_locations(tree)
 
 
 def unparse(node):
